@@ -1019,5 +1019,10 @@ func (x *Executor) allocRef(st *State, hint string) string {
 	al := x.heapGet(st, allocComp)
 	u.assume(fmt.Sprintf("(and (> %s 0) (not (select %s %s)) (= (refkind %s) 0) (= (refroot %s) %s))", r, al, r, r, r, r))
 	x.heapSet(st, allocComp, fmt.Sprintf("(store %s %s true)", al, r))
+	// in particular it was not allocated when the function under verification was entered
+	a0 := q(allocComp + "@0")
+	if u.declSeen[a0] && a0 != al {
+		u.assume(fmt.Sprintf("(not (select %s %s))", a0, r))
+	}
 	return r
 }
